@@ -230,6 +230,11 @@ YIELD = Call(r"\bpika::execution::this_thread::detail::yield_k", "yield_k({0})",
 LOAD = Call(r"(?<![\w.>])state_\.load", "atomic_load(&self->state_)", "+")
 CAS = Call(r"(?<![\w.>])state_\.compare_exchange_weak", "atomic_cas_weak(&self->state_, &{0}, {1})", 1)
 FETCH_SELF = Call(r"(?<![\w.>])state_\.fetch_(add|sub)", "atomic_fetch_{h1}(&self->state_, {0})", 1)   # which one is semantics: captured
+# unlock(): the pinned text is one fetch_sub; a load / store spelling is lifted as well (a store of a value computed from an earlier load
+# is a step from whatever the word holds AT THE STORE: the guarantee is checked against that)
+UNLOCK_RULES = [Call(r"(?<![\w.>])state_\.fetch_(add|sub)", "atomic_fetch_{h1}(&self->state_, {0})", None),
+                Call(r"(?<![\w.>])state_\.store", "atomic_store(&self->state_, {0})", None),
+                Call(r"(?<![\w.>])state_\.load", "atomic_load(&self->state_)", None)]
 FETCH_P = Call(r"\b(\w+)->state_\.fetch_(add|sub)", "atomic_fetch_{h2}(&{h1}->state_, {0})", 1)
 EXEC = Call(r"\b(\w+)->execute", "cb_execute({h1})", None)
 FLAG = Call(r"\b(\w+)->callback_finished_executing_\.store", "flag_store({h1}, {0})", None)
@@ -308,8 +313,7 @@ UNITS = [
               Lift(CPP, r"void stop_state::lock\(\)", rules=[CanonLoopVar(), LOAD, CAS, YIELD, QUAL, AUTO],
                    loops={1: LOOP_LOCK_OUTER, 2: LOOP_LOCK_INNER, "count": 2}), [FN["lock"]], min_obligations=40),
     word_unit("state.unlock", "U_UNLOCK", "unlock",
-              Lift(HPP, r"void unlock\(\) noexcept", rules=[
-                  StripComments(), FETCH_SELF, QUAL]),
+              Lift(HPP, r"void unlock\(\) noexcept", rules=[StripComments()] + UNLOCK_RULES + [QUAL]),
               [FN["unlock"]], min_obligations=10),
     word_unit("state.lock_and_request_stop", "U_LOCK_AND_REQUEST_STOP", "lock_and_request_stop",
               Lift(CPP, r"bool stop_state::lock_and_request_stop\(\)", rules=[CanonLoopVar(), LOAD, CAS, YIELD, QUAL, AUTO],
@@ -550,8 +554,7 @@ def scoped(cls, what):
 CB_COMMON = dict(WORD_LIFTS, callee_contracts=ContractsFrom("word.c", ["lock", "unlock", "lock_and_request_stop", "lock_if_not_stopped"]),
                  add_this=ADD_THIS, remove_this=REMOVE_THIS,
                  b_lock=Lift(CPP, r"void stop_state::lock\(\)", rules=[CanonLoopVar(), LOAD, CAS, YIELD, QUAL, AUTO], loops={"count": 2}),
-                 b_unlock=Lift(HPP, r"void unlock\(\) noexcept", rules=[
-                     StripComments(), FETCH_SELF, QUAL]),
+                 b_unlock=Lift(HPP, r"void unlock\(\) noexcept", rules=[StripComments()] + UNLOCK_RULES + [QUAL]),
                  b_lars=Lift(CPP, r"bool stop_state::lock_and_request_stop\(\)", rules=[CanonLoopVar(), LOAD, CAS, YIELD, QUAL, AUTO], loops={"count": 2}),
                  slins_ctor=scoped("scoped_lock_if_not_stopped", "ctor"), slins_dtor=scoped("scoped_lock_if_not_stopped", "dtor"),
                  slins_bool=scoped("scoped_lock_if_not_stopped", "bool"),
